@@ -94,13 +94,60 @@ def run(ck):
                                       "rule": c["rule"], "doc": c["docs"][i], "representation": name, "dv": a, "other": b,
                                       "all": reps, "replay_case": {"k": "rep", "id": 1, "rule": c["rule"], "docs": [c["docs"][i]]}})
                     direct_failed.add(c["id"])
+    # the crate's AsValue adapters for Rust's own types at their boundary values, alone and through
+    # Option / Vec / HashMap: signed -> Int, unsigned -> UInt (no wrap), floats -> the same double
+    pid = ck.new_id()
+    pout = lib.run_harness_only([{"k": "prim", "id": pid}], "C11prim")
+    rows = [el for el in lib.parse_sexp(pout[pid])[1:] if isinstance(el, list) and len(el) == 2]
+    if len(rows) < 200:
+        ck.violation({"property": "C11", "kind": "direct", "what": "the adapter table of the harness is incomplete", "crate": pout[pid][:400]})
+        direct_failed.add(pid)
+    import struct
+    for label, got in rows:
+        ty, _, val = label.partition(":")
+        inner = ty
+        wrap = None
+        for w in ("Option<", "Vec<", "HashMap<String,"):
+            if ty.startswith(w):
+                wrap, inner = w, ty[len(w):-1]
+        if inner in ("i8", "i16", "i32", "i64", "isize"):
+            exp = "int:%d" % int(val)
+        elif inner in ("u8", "u16", "u32", "u64", "usize"):
+            exp = "uint:%d" % int(val)
+        elif inner == "f32":
+            exp = "float:%d" % struct.unpack("<Q", struct.pack("<d", struct.unpack("<f", struct.pack("<I", int(val)))[0]))[0]
+        elif inner == "f64":
+            exp = "float:%d" % int(val)
+        elif inner == "bool":
+            exp = "bool:" + val
+        elif ty in ("unit", "None<i64>"):
+            exp = "null"
+        elif ty in ("String", "str"):
+            exp = "str:%d" % len(val)
+        elif ty == "HashSet<u16>":
+            exp = "arr[uint:%s]" % val
+        else:
+            exp = None
+        if wrap == "Vec<" and exp:
+            exp = "arr[%s,%s]" % (exp, exp)
+        evals += 1
+        ck.count("adapter:" + (wrap or "") + inner)
+        if exp is None or got != exp:
+            if len(direct_failed) < 4:
+                ck.violation({"property": "C11", "kind": "direct",
+                              "what": "a Rust value reaches the engine as a different value or kind than the same number written in YAML / JSON "
+                                      "(signed -> Int, unsigned -> UInt, floats -> the same double)",
+                              "rust_value": label, "as_value": got, "expected": exp,
+                              "replay_case": {"k": "prim", "id": 1}})
+            direct_failed.add(pid)
     ck.coverage["evaluations"] = evals
     ck.coverage["distinct_nontrivial"] = len(nontrivial)
     ck.coverage["rule"] = (
         "every document (4 derived from the rule + 7 single-typed flat ones per rule; 64-bit boundary values under every numeric "
         "predicate) is rendered as the harness tree, serde_yaml::Mapping, serde_json::Value, HashMap<String, serde_json::Value>, "
         "HashMap<String, T / Option<T> / Vec<T>> (u64 and i64 variants) and a hand-written Document; verdicts must agree with the "
-        "tree's. The model side is the theorem (the rule kind ties the solver model elsewhere). Non-trivial = field present.")
+        "tree's; the AsValue adapters of every Rust integer / float type (and Option, Vec, HashSet, HashMap of them) are "
+        "compared at their boundary values with the kind and value the same number has in YAML / JSON. The model side is the theorem (the rule kind ties the solver model elsewhere). Non-trivial = field present.")
     for c in cases[:2] + cases[-1:]:
         ck.sample({"rule": c["rule"][:300], "crate": impl[c["id"]][:400]})
     ck.coverage["traces_validated_against_impl"] = 0
